@@ -72,7 +72,7 @@ impl Sm9EncKey {
             let mlen = data.len() - (65 + 32);
             let k1 = &k[0..mlen];
             let k2 = &k[mlen..];
-            let u = sm3_hmac(k2, c2, 32);
+            let u = sm3_mac(k2, c2, 32);
             if !u.as_slice().eq(c3) {
                 return Err(Sm9Error::InvalidDigest);
             }
@@ -137,7 +137,7 @@ impl Sm9EncMasterKey {
         let k1 = &k[0..data.len()];
         let k2 = &k[data.len()..];
         let c2 = xor(k1, &data, data.len());
-        let c3 = sm3_hmac(k2, &c2, 32usize);
+        let c3 = sm3_mac(k2, &c2, 32usize);
         let mut c: Vec<u8> = vec![];
         c.extend_from_slice(&c1.to_bytes_be());
         c.extend_from_slice(&c3);
@@ -182,38 +182,12 @@ impl Sm9EncMasterKey {
     }
 }
 
-const BLOCK_SIZE: usize = 64;
-
-fn sm3_hmac(key: &[u8], message: &[u8], klen: usize) -> Vec<u8> {
-    let mut ipad = [0x36u8; BLOCK_SIZE];
-    let mut opad = [0x5cu8; BLOCK_SIZE];
-
-    let mut key_block = [0u8; 64];
-
-    // 如果密钥长度大于 BLOCK_SIZE，先进行哈希
-    if klen > BLOCK_SIZE {
-        key_block[..32].copy_from_slice(&sm3_hash(key));
-    } else {
-        key_block[..klen].copy_from_slice(&key[0..klen]);
-    };
-
-    // 准备 ipad 和 opad
-    for i in 0..BLOCK_SIZE {
-        ipad[i] ^= key_block[i];
-        opad[i] ^= key_block[i];
-    }
-
-    // 内层哈希: H((K ^ ipad) || message)
-    let mut ipad_append = vec![];
-    ipad_append.extend_from_slice(&ipad);
-    ipad_append.extend_from_slice(message);
-    let inner_result = sm3_hash(&ipad_append);
-
-    // 外层哈希: H((K ^ opad) || inner_result)
-    let mut opad_append = vec![];
-    opad_append.extend_from_slice(&opad);
-    opad_append.extend_from_slice(&inner_result);
-    sm3_hash(&opad_append).to_vec()
+/// MAC(K2, Z) = Hv(Z || K2) as defined in GM/T 0044.4, with K2 the first `klen` bytes of `key`
+fn sm3_mac(key: &[u8], message: &[u8], klen: usize) -> Vec<u8> {
+    let mut z_k2 = vec![];
+    z_k2.extend_from_slice(message);
+    z_k2.extend_from_slice(&key[0..klen]);
+    sm3_hash(&z_k2).to_vec()
 }
 
 fn sm9_u256_hash1(id: &[u8], hid: u8) -> U256 {
